@@ -80,7 +80,7 @@ def expected_inputs(job):
 
 
 def run_cases(ctx, cases, closure=True, check_inputs=True, extra_check=None, on_ok=None, compare_rels=None,
-              nontrivial_rule=None, **bargs):
+              nontrivial_rule=None, compile_fail_violation=None, **bargs):
     """Builds, runs and compares. extra_check(case, job, rep_index, step_index, step, db) -> list of diff dicts.
     on_ok(case, job, jr, refs) is called for jobs with no discrepancy. Returns stats."""
     tasks, index = [], []
@@ -114,6 +114,13 @@ def run_cases(ctx, cases, closure=True, check_inputs=True, extra_check=None, on_
     iters_hist = ctx.cov.setdefault('scc_iteration_histogram', {})
     for c in cases:
         for vname, err in c.build_failed.items():
+            if compile_fail_violation and compile_fail_violation(c, vname):
+                ctx.evaluations += 1
+                ctx.violation('%s_%s_compile' % (c.name, vname),
+                              {'case': c.name, 'variant': vname, 'program': c.variant(vname).prog.text().split('\n'), 'rustc': err[:1500],
+                               'summary': 'variant %s does not compile although its equivalent form does: %s' % (vname, err[:200])},
+                              dict(c.meta.get('facts', {}), kind='compile_error', variant=vname, message=err[:300]))
+                continue
             # a well-formed generated program that does not compile: inconclusive here (C15 owns that direction)
             ctx.inconc('program %s/%s did not compile: %s' % (c.name, vname, err[:400]))
         prog = c.ref_prog
